@@ -24,7 +24,7 @@ vars == <<S, lock, pc, cur, n>>
 IsWrite(op) == op.k \in {"add", "rm", "merge"}
 Touched(op) == CASE op.k \in {"add", "rm", "has"} -> {op.a}
                  [] op.k = "merge" -> op.from
-                 [] op.k = "query" -> Atoms
+                 [] op.k \in {"query", "list", "count"} -> Atoms   \* ListPredicates / EstimateFactCount walk the whole store
 Idle == [op |-> [k |-> "none"], todo |-> {}, acc |-> {}, snap |-> {}]
 
 Init == S = {} /\ lock = <<"free">> /\ pc = [p \in Procs |-> "idle"] /\ cur = [p \in Procs |-> Idle]
@@ -50,7 +50,7 @@ Micro(p) == /\ pc[p] = "in" /\ cur[p].todo # {}
             /\ \E a \in cur[p].todo :
                  LET op == cur[p].op IN
                  /\ cur' = [cur EXCEPT ![p].todo = @ \ {a},
-                                       ![p].acc = IF a \in S /\ op.k \in {"has", "query", "add", "rm"} THEN @ \cup {a} ELSE @]
+                                       ![p].acc = IF a \in S /\ op.k \in {"has", "query", "add", "rm", "list", "count"} THEN @ \cup {a} ELSE @]
                  /\ S' = CASE op.k \in {"add", "merge"} -> S \cup {a}
                            [] op.k = "rm" -> S \ {a}
                            [] OTHER -> S
@@ -75,6 +75,6 @@ MutualExclusion ==
 AtomicView ==
   \A p \in Procs : InSection(p) =>
      LET op == cur[p].op  seen == Touched(op) \ cur[p].todo IN
-     op.k \in {"has", "query", "add", "rm"} => cur[p].acc = seen \cap cur[p].snap
+     op.k \in {"has", "query", "add", "rm", "list", "count"} => cur[p].acc = seen \cap cur[p].snap
 T18 == MutualExclusion /\ AtomicView
 =============================================================================
